@@ -35,8 +35,8 @@ def nontrivial(world):
 
 
 def run_shard(ctx):
-    n = 60 if ctx.tier == 'quick' else 1000
-    ctx.set_budget(80 if ctx.tier == 'quick' else 2400)
+    n = 60 if ctx.tier == 'quick' else 4000
+    ctx.set_budget(80 if ctx.tier == 'quick' else 1100)
     run_histories(ctx, PROP, strategy(ctx.tier), checkers, nontrivial, n)
 
 
